@@ -17,13 +17,13 @@ Variable cap : Z.
 Variable ucfg : bool.
 Variable daf : bool.
 
-Notation step := (Shutdown.step cap ucfg daf true).
-Notation apply := (Shutdown.apply cap ucfg daf true).
-Notation run_from := (Shutdown.run_from cap ucfg daf true).
-Notation run := (Shutdown.run cap ucfg daf true).
-Notation prompt_from := (Shutdown.prompt_from cap ucfg daf true).
-Notation prompt := (Shutdown.prompt cap ucfg daf true).
-Notation step_thread := (Shutdown.step_thread cap daf true).
+Notation step := (Shutdown.step cap ucfg daf true true).
+Notation apply := (Shutdown.apply cap ucfg daf true true).
+Notation run_from := (Shutdown.run_from cap ucfg daf true true).
+Notation run := (Shutdown.run cap ucfg daf true true).
+Notation prompt_from := (Shutdown.prompt_from cap ucfg daf true true).
+Notation prompt := (Shutdown.prompt cap ucfg daf true true).
+Notation step_thread := (Shutdown.step_thread cap daf true true).
 Notation Inv2 := (Shutdown_Term_Proofs.Inv2 daf).
 
 Ltac splitifs E := repeat match type of E with context [if ?c then _ else _] => destruct c end.
@@ -74,6 +74,52 @@ Proof.
   - destruct (n_un (w_cnt w) =? 0); [|discriminate]. apply some_inj in E; subst w'; pf R Q.
 Qed.
 
+(* with ProcessBlock releasing the repository lock on every exit (the code) it is never left behind *)
+Lemma rlock_step_thread w t k n w' :
+  step_thread w t k n = Some w' -> d_rlock (w_dat w') = d_rlock (w_dat w).
+Proof.
+  unfold Shutdown.step_thread. destruct (thread w t) as [| |p f|]; try discriminate.
+  assert (R : w_dat (restart w) = w_dat w) by apply dat_restart.
+  assert (Q : w_dat (request_stop w) = w_dat w) by apply dat_request_stop.
+  destruct p; intros E.
+  - unfold top_step, consume in E. destruct t; splitifs' E; try discriminate; try (destruct (w_conn w));
+      apply some_inj in E; subst w'; try destruct c; pf R Q.
+  - destruct t; try discriminate. unfold read_step in E.
+    destruct (w_conn w); splitifs' E; try discriminate; apply some_inj in E; subst w'; pf R Q.
+  - destruct (stopping w); apply some_inj in E; subst w'; pf R Q.
+  - unfold Shutdown.work_step, Shutdown.fail_exit, end_body, so_after_fail, spawn_un in E.
+    destruct t, k, f; splitifs' E; try discriminate; apply some_inj in E; subst w'; try (pf R Q).
+    all: cbn [thread set_thread set_thr w_thr tget tset]; destruct (t_un (w_thr w)); pf R Q.
+  - unfold after_add in E. destruct (stopping w), t; apply some_inj in E; subst w'; pf R Q.
+  - unfold after_add in E. destruct (ch_locked w c); [discriminate|]. destruct (ch_open w c), t; apply some_inj in E; subst w'; pf R Q.
+  - unfold after_add in E. destruct (ch_len w c <? cap); [|discriminate]. destruct t, c; apply some_inj in E; subst w'; pf R Q.
+  - apply some_inj in E; subst w'; pf R Q.
+  - destruct (n_un (w_cnt w) =? 0); [|discriminate]. apply some_inj in E; subst w'; pf R Q.
+Qed.
+
+Lemma rlock_step w a : d_rlock (w_dat w) = false -> d_rlock (w_dat (apply w a)) = false.
+Proof.
+  intros Hf. unfold Shutdown.apply. destruct (step w a) as [w'|] eqn:E; [|exact Hf].
+  destruct a; unfold Shutdown.step in E.
+  - unfold Shutdown.step_run in E. rewrite ?Hf in E. destruct (pc_of w); try destruct ok; splitifs E; try discriminate;
+      apply some_inj in E; subst w'; cbn; assumption.
+  - splitifs E; try discriminate. apply some_inj in E; subst w'. exact Hf.
+  - splitifs E; try discriminate. apply some_inj in E; subst w'. cbn. rewrite dat_request_stop. exact Hf.
+  - destruct (w_conn w); try discriminate. apply some_inj in E; subst w'. exact Hf.
+  - destruct (w_conn w); try discriminate. apply some_inj in E; subst w'. exact Hf.
+  - destruct (thread w UN) as [| |p f|]; try discriminate. destruct p; try discriminate.
+    destruct (w_ustop w); [discriminate|]. apply some_inj in E; subst w'. exact Hf.
+  - destruct (thread w AP); try discriminate. apply some_inj in E; subst w'. exact Hf.
+  - apply (areg_inv cap ucfg daf) in E. destruct E as (_ & _ & ->). exact Hf.
+  - rewrite (rlock_step_thread w t k n w' E). exact Hf.
+Qed.
+
+Lemma rlock_run : forall acts w, d_rlock (w_dat w) = false -> d_rlock (w_dat (run_from w acts)) = false.
+Proof. induction acts as [|a acts IH]; intros w H; [exact H|]. cbn. apply IH, rlock_step, H. Qed.
+
+Lemma rlock_reachable acts : d_rlock (w_dat (run acts)) = false.
+Proof. apply rlock_run. reflexivity. Qed.
+
 Lemma pufail_benign w a w' :
   benign a = true -> step w a = Some w' -> d_pufail (w_dat w) = false -> d_pufail (w_dat w') = false.
 Proof.
@@ -91,22 +137,23 @@ Proof. intros H [Hd|Hf]; [apply (no_d26_daf cap daf); assumption|apply no_d26; a
    schedule of at most `rank w` benign run-loop / goroutine steps reaches stopped = true *)
 Lemma reach_stopped_n : forall (n : nat) w,
   rank w <= Z.of_nat n ->
-  Inv w -> Inv2 w -> 1 <= cap -> stopping w = true -> hard w = true -> (daf = true \/ d_pufail (w_dat w) = false) ->
+  Inv w -> Inv2 w -> d_rlock (w_dat w) = false -> 1 <= cap -> stopping w = true -> hard w = true ->
+  (daf = true \/ d_pufail (w_dat w) = false) ->
   exists acts', forallb benign acts' = true /\ forallb thread_act acts' = true /\ prompt_from w acts' = true /\
                 Z.of_nat (length acts') <= rank w /\ stopped (run_from w acts') = true.
 Proof.
-  induction n as [|n IH]; intros w Hr HI H Hcap Hst Hh Hf.
+  induction n as [|n IH]; intros w Hr HI H Hrl Hcap Hst Hh Hf.
   - pose proof (rank_nonneg w H) as Hn.
     destruct (stopped w) eqn:Es.
     + exists []. cbn. repeat split; auto; lia.
-    + destruct (progress cap ucfg daf w HI H Hcap Hst Es (no_d26' w H Hf)) as (a & Hb & Ha & Hp & He).
+    + destruct (progress cap ucfg daf w HI H Hrl Hcap Hst Es (no_d26' w H Hf)) as (a & Hb & Ha & Hp & He).
       destruct (step w a) as [w'|] eqn:E; [|congruence].
       pose proof (rank_decreases cap ucfg daf w a w' HI H Hst Hh Ha E) as Hd.
       assert (H' : Inv2 w') by (pose proof (Inv2_step cap ucfg daf w a H) as X; unfold Shutdown.apply in X; rewrite E in X; exact X).
       pose proof (rank_nonneg w' H'). lia.
   - destruct (stopped w) eqn:Es.
     + pose proof (rank_nonneg w H) as Hn. exists []. cbn. repeat split; auto; lia.
-    + destruct (progress cap ucfg daf w HI H Hcap Hst Es (no_d26' w H Hf)) as (a & Hb & Ha & Hp & He).
+    + destruct (progress cap ucfg daf w HI H Hrl Hcap Hst Es (no_d26' w H Hf)) as (a & Hb & Ha & Hp & He).
       destruct (step w a) as [w'|] eqn:E; [|congruence].
       pose proof (rank_decreases cap ucfg daf w a w' HI H Hst Hh Ha E) as Hd.
       assert (Eap : apply w a = w') by (unfold Shutdown.apply; rewrite E; reflexivity).
@@ -116,7 +163,8 @@ Proof.
       assert (Hf' : daf = true \/ d_pufail (w_dat w') = false).
       { destruct Hf as [Hf|Hf]; [left; exact Hf|right; exact (pufail_benign w a w' Hb E Hf)]. }
       assert (Hr' : rank w' <= Z.of_nat n) by lia.
-      destruct (IH w' Hr' HI' H' Hcap Hst' Hh' Hf') as (acts' & B1 & B2 & B3 & B4 & B5).
+      assert (Hrl' : d_rlock (w_dat w') = false) by (rewrite <- Eap; apply rlock_step; exact Hrl).
+      destruct (IH w' Hr' HI' H' Hrl' Hcap Hst' Hh' Hf') as (acts' & B1 & B2 & B3 & B4 & B5).
       exists (a :: acts'). cbn [forallb Shutdown.prompt_from Shutdown.run_from fold_left length].
       rewrite Eap, Hb, Ha, Hp, B1, B2, B3. repeat split; auto.
       * rewrite Nat2Z.inj_succ. lia.
@@ -133,7 +181,7 @@ Proof.
   pose proof (Inv_reachable cap ucfg daf acts Hp) as HI. pose proof (Inv2_reachable cap ucfg daf acts) as H. fold w in HI, H.
   destruct (stop_requested_flags daf w H Hc) as [Hst Hh].
   pose proof (rank_nonneg w H) as Hn.
-  destruct (reach_stopped_n (Z.to_nat (rank w)) w) as (acts' & _ & B2 & B3 & B4 & B5); try assumption; [lia|].
+  destruct (reach_stopped_n (Z.to_nat (rank w)) w) as (acts' & _ & B2 & B3 & B4 & B5); try assumption; [lia|apply rlock_reachable|].
   exists acts'. auto.
 Qed.
 
@@ -152,7 +200,7 @@ Theorem stop_progress_reachable : forall acts,
   stopping w = true -> stopped w = false -> d26_state cap w = false ->
   exists a, benign a = true /\ thread_act a = true /\ prompt_ok w a = true /\ step w a <> None.
 Proof.
-  intros acts Hc Hp w. exact (progress cap ucfg daf w (Inv_reachable cap ucfg daf acts Hp) (Inv2_reachable cap ucfg daf acts) Hc).
+  intros acts Hc Hp w. exact (progress cap ucfg daf w (Inv_reachable cap ucfg daf acts Hp) (Inv2_reachable cap ucfg daf acts) (rlock_reachable acts) Hc).
 Qed.
 
 Theorem stop_bounded_work_reachable : forall acts acts',
@@ -226,6 +274,57 @@ Proof.
     { unfold ch_locked, thread in *. cbn. rewrite orb_false_r. apply orb_false_iff in Hl. destruct Hl as [Hl _]. exact Hl. }
     unfold thread in Hl'. cbn in Hl'. rewrite Hl'. unfold ch_open. cbn. rewrite Hx. reflexivity.
   - cbn. repeat split; reflexivity.
+Qed.
+
+(* TxChannel.Add / MessageChannel.Add never drop: a goroutine waiting for room leaves that program point
+   only by the step that puts its item into the channel, and what is in a channel leaves it only by
+   the consumer taking it (with `progress`: the goroutine does get room, or the channel is closed first -
+   which Close cannot do while the goroutine waits, C19_no_send_on_closed) *)
+Theorem add_never_drops : forall w t c f k n w',
+  thread w t = TLive (PSend c) f -> step w (AStep t k n) = Some w' ->
+  ch_len w' c = ch_len w c + 1 /\ thread w' t <> TLive (PSend c) f.
+Proof.
+  intros w t c f k n w' Et E. unfold Shutdown.step, Shutdown.step_thread in E. rewrite Et in E.
+  destruct (ch_len w c <? cap); [|discriminate]. apply some_inj in E. subst w'.
+  unfold after_add, exit_thread, thread. destruct t, c; cbn; split; try lia; discriminate.
+Qed.
+
+Theorem only_consumer_takes : forall w a w' c,
+  step w a = Some w' -> ch_len w' c < ch_len w c ->
+  (exists k n, a = AStep (match c with COut => SO | CTx => PU end) k n) \/ (exists ok, a = ARun ok /\ pc_of w = RConnect).
+Proof.
+  intros w a w' c E Hl.
+  destruct a; unfold Shutdown.step in E.
+  - right. unfold Shutdown.step_run in E. destruct (pc_of w) eqn:Ep; try (exists ok; split; reflexivity).
+    all: exfalso; splitifs E; try discriminate; apply some_inj in E; subst w'; destruct c; cbn in Hl; lia.
+  - exfalso. splitifs E; try discriminate. apply some_inj in E; subst w'. destruct c; cbn in Hl; lia.
+  - exfalso. splitifs E; try discriminate. apply some_inj in E; subst w'.
+    unfold request_stop in Hl. destruct (stopped w || stopping w); destruct c; cbn in Hl; lia.
+  - exfalso. destruct (w_conn w); try discriminate. apply some_inj in E; subst w'. destruct c; cbn in Hl; lia.
+  - exfalso. destruct (w_conn w); try discriminate. apply some_inj in E; subst w'. destruct c; cbn in Hl; lia.
+  - exfalso. destruct (thread w UN) as [| |p f|]; try discriminate. destruct p; try discriminate.
+    destruct (w_ustop w); [discriminate|]. apply some_inj in E; subst w'. destruct c; cbn in Hl; lia.
+  - exfalso. destruct (thread w AP); try discriminate. apply some_inj in E; subst w'. destruct c; cbn in Hl; lia.
+  - exfalso. apply (areg_inv cap ucfg daf) in E. destruct E as (_ & _ & ->). destruct c; cbn in Hl; lia.
+  - left. unfold Shutdown.step_thread in E. destruct (thread w t) as [| |p f|] eqn:Et; try discriminate.
+    assert (R : w_ch (restart w) = w_ch w) by apply ch_restart.
+    assert (Q : w_ch (request_stop w) = w_ch w) by apply ch_request_stop.
+    destruct (tid_eq_dec t (match c with COut => SO | CTx => PU end)) as [->|Hne]; [eauto|]. exfalso.
+    Ltac nolen R Q Hl := unfold ch_len in Hl; cbn in Hl; rewrite ?R, ?Q in Hl; cbn in Hl; lia.
+    destruct p.
+    + unfold top_step, consume in E. destruct t, c; try congruence; splitifs E; try discriminate; try (destruct (w_conn w));
+        apply some_inj in E; subst w'; nolen R Q Hl.
+    + destruct t; try discriminate. unfold read_step in E.
+      destruct (w_conn w); splitifs E; try discriminate; apply some_inj in E; subst w'; destruct c; nolen R Q Hl.
+    + destruct (stopping w); apply some_inj in E; subst w'; destruct c; nolen R Q Hl.
+    + unfold Shutdown.work_step, Shutdown.fail_exit, end_body, so_after_fail, spawn_un in E.
+      destruct t, k, f; splitifs E; try discriminate; apply some_inj in E; subst w'; try (destruct c; nolen R Q Hl).
+      all: cbn [thread set_thread set_thr w_thr tget tset] in Hl; destruct (t_un (w_thr w)); destruct c; nolen R Q Hl.
+    + unfold after_add in E. destruct (stopping w), t; apply some_inj in E; subst w'; destruct c; nolen R Q Hl.
+    + unfold after_add in E. destruct (ch_locked w c0); [discriminate|]. destruct (ch_open w c0), t; apply some_inj in E; subst w'; destruct c; nolen R Q Hl.
+    + unfold after_add in E. destruct (ch_len w c0 <? cap); [|discriminate]. destruct t, c0; apply some_inj in E; subst w'; destruct c; nolen R Q Hl.
+    + apply some_inj in E; subst w'; destruct c; nolen R Q Hl.
+    + destruct (n_un (w_cnt w) =? 0); [|discriminate]. apply some_inj in E; subst w'; destruct c; nolen R Q Hl.
 Qed.
 
 (* ---- D26: a permanent hang ---- *)
@@ -327,21 +426,21 @@ End Reach.
 (* the code as it is (the consumer keeps draining after an error): no hypothesis about D26 *)
 
 Theorem stop_progress_fixed : forall (cap : Z) (ucfg : bool) (acts : list act),
-  1 <= cap -> prompt cap ucfg true true acts = true ->
-  let w := run cap ucfg true true acts in
+  1 <= cap -> prompt cap ucfg true true true acts = true ->
+  let w := run cap ucfg true true true acts in
   stopping w = true -> stopped w = false ->
-  exists a, benign a = true /\ thread_act a = true /\ prompt_ok w a = true /\ step cap ucfg true true w a <> None.
+  exists a, benign a = true /\ thread_act a = true /\ prompt_ok w a = true /\ step cap ucfg true true true w a <> None.
 Proof.
   intros cap ucfg acts Hc Hp w Hst Hs.
-  exact (progress_daf cap ucfg true w eq_refl (Inv_reachable cap ucfg true acts Hp) (Inv2_reachable cap ucfg true acts) Hc Hst Hs).
+  exact (progress_daf cap ucfg true w eq_refl (Inv_reachable cap ucfg true acts Hp) (Inv2_reachable cap ucfg true acts) (rlock_reachable cap ucfg true acts) Hc Hst Hs).
 Qed.
 
 Theorem stop_reaches_stopped_fixed : forall (cap : Z) (ucfg : bool) (acts : list act),
-  1 <= cap -> prompt cap ucfg true true acts = true ->
-  let w := run cap ucfg true true acts in
+  1 <= cap -> prompt cap ucfg true true true acts = true ->
+  let w := run cap ucfg true true true acts in
   stopcall w = 2 ->
-  exists acts', forallb thread_act acts' = true /\ prompt_from cap ucfg true true w acts' = true /\
-                Z.of_nat (length acts') <= rank w /\ stopped (run_from cap ucfg true true w acts') = true.
+  exists acts', forallb thread_act acts' = true /\ prompt_from cap ucfg true true true w acts' = true /\
+                Z.of_nat (length acts') <= rank w /\ stopped (run_from cap ucfg true true true w acts') = true.
 Proof.
   intros cap ucfg acts Hc Hp w Hcall. apply stop_reaches_stopped; auto.
 Qed.
@@ -364,10 +463,10 @@ Definition d26_acts : list act :=
   ++ [AStep PU KFail 0; AStopFlag; AStopReq; ARun true; ARun true;
       AStep RT KEnd 0; AStep PB KEnd 0; AStep CD KEnd 0].
 
-Notation d26_w := (run 100 false false true d26_acts).
+Notation d26_w := (run 100 false false true true d26_acts).
 
 Lemma d26_facts :
-  prompt 100 false false true d26_acts = true /\ stopcall d26_w = 2 /\ stopped d26_w = false /\ d26_state 100 d26_w = true /\
+  prompt 100 false false true true d26_acts = true /\ stopcall d26_w = 2 /\ stopped d26_w = false /\ d26_state 100 d26_w = true /\
   pc_of d26_w = RWaitIn /\ t_pu (w_thr d26_w) = TDone /\ t_mi (w_thr d26_w) = TLive (PSend CTx) 0 /\
   x_len (w_ch d26_w) = 100 /\ n_in (w_cnt d26_w) = 1 /\ t_cd (w_thr d26_w) = TDone /\ t_mu (w_thr d26_w) = TNone /\
   n_proc (w_cnt d26_w) = 1 /\ t_so (w_thr d26_w) = TLive PTop 0.
@@ -381,11 +480,11 @@ Qed.
 
 (* after the stop request nothing can move: no step of the run loop or of any goroutine is enabled *)
 Theorem d26_refuted :
-  exists acts, prompt 100 false false true acts = true /\
-    let w := run 100 false false true acts in
+  exists acts, prompt 100 false false true true acts = true /\
+    let w := run 100 false false true true acts in
     stopcall w = 2 /\ stopped w = false /\ d26_state 100 w = true /\
-    (forall a, thread_act a = true -> step 100 false false true w a = None) /\
-    (forall acts', stopped (run_from 100 false false true w acts') = false).
+    (forall a, thread_act a = true -> step 100 false false true true w a = None) /\
+    (forall acts', stopped (run_from 100 false false true true w acts') = false).
 Proof.
   exists d26_acts. destruct d26_facts as (F1 & F2 & F3 & F4 & _).
   split; [exact F1|]. cbv zeta. split; [exact F2|]. split; [exact F3|]. split; [exact F4|]. split.
@@ -409,32 +508,56 @@ Definition sr_acts : list act :=
   [ARun true; ARun true; AReg MI; AReg RT; AReg SO; AReg PB; AReg PU; AReg CD; AStep SO KEnd 0; d26_mi]
   ++ repeat APeerMsg 101 ++ concat (repeat sr_msg 101)
   ++ [AStopFlag; AStopReq; ARun true; ARun true; AStep SO KFail 0; AStep RT KEnd 0; AStep PB KEnd 0; AStep CD KEnd 0].
-Notation sr_w := (run 100 false true false sr_acts).
+Notation sr_w := (run 100 false true true false sr_acts).
 
 Lemma sr_facts :
-  prompt 100 false true false sr_acts = true /\ stopcall sr_w = 2 /\ stopped sr_w = false /\
+  prompt 100 false true true false sr_acts = true /\ stopcall sr_w = 2 /\ stopped sr_w = false /\
   pc_of sr_w = RWaitIn /\ t_so (w_thr sr_w) = TDone /\ t_mi (w_thr sr_w) = TLive (PSend COut) 0 /\
   o_len (w_ch sr_w) = 100 /\ o_open (w_ch sr_w) = true /\ n_in (w_cnt sr_w) = 1.
 Proof. vm_compute. repeat split; reflexivity. Qed.
 
-Lemma dead_forever cap ucfg daf sdrain w :
-  (forall a, Shutdown.step cap ucfg daf sdrain w a = None) ->
-  forall acts', Shutdown.run_from cap ucfg daf sdrain w acts' = w.
-Proof.
-  intros Hd. induction acts' as [|a acts' IH]; [reflexivity|].
-  cbn. unfold Shutdown.apply at 2. rewrite (Hd a). exact IH.
-Qed.
-
 Theorem sender_returns_refuted :
-  exists acts, prompt 100 false true false acts = true /\
-    let w := run 100 false true false acts in
+  exists acts, prompt 100 false true true false acts = true /\
+    let w := run 100 false true true false acts in
     stopcall w = 2 /\ stopped w = false /\ pc_of w = RWaitIn /\
     (* nothing can move - no step of the run loop, of a goroutine, of the peers or of Stop - except that
        the application may still push transactions through the public API, which does not help *)
-    (forall a, a <> AApiTx -> step 100 false true false w a = None).
+    (forall a, a <> AApiTx -> step 100 false true true false w a = None).
 Proof.
   exists sr_acts. destruct sr_facts as (F1 & F2 & F3 & F4 & _).
   split; [exact F1|]. cbv zeta. split; [exact F2|]. split; [exact F3|]. split; [exact F4|].
+  intros a Ha. destruct a.
+  - destruct ok; vm_compute; reflexivity.
+  - vm_compute; reflexivity.
+  - vm_compute; reflexivity.
+  - vm_compute; reflexivity.
+  - vm_compute; reflexivity.
+  - vm_compute; reflexivity.
+  - congruence.
+  - destruct t; vm_compute; reflexivity.
+  - destruct t; vm_compute; reflexivity.
+Qed.
+
+(* ---------------------------------------------------------------------------------------------- *)
+(* An error exit of ProcessBlock that returns WITHOUT releasing the tx repository's unconfirmed lock
+   (unlk = false; the code releases it on every exit): processBlocks leaves, nothing else is wrong - until
+   the shutdown reaches its save phase: txs.Save needs the lock, Run and Stop never return. *)
+Definition ul_acts : list act :=
+  [ARun true; ARun true; AReg MI; AReg RT; AReg SO; AReg PB; AReg PU; AReg CD; AStep MI KEnd 0;
+   AStep PB KEnd 2; AStep PB KCall 0; AStep PB KFail 0;
+   AStopFlag; AStopReq; ARun true; ARun true; AStep MI KEnd 0; AStep CD KEnd 0; ARun true; ARun true; ARun true;
+   AStep RT KEnd 0; AStep SO KEnd 0; AStep SO KEnd 0; AStep SO KEnd 0; AStep PU KEnd 0; ARun true].
+Notation ul_w := (run 100 false true false true ul_acts).
+
+Theorem exit_without_unlock_refuted :
+  prompt 100 false true false true ul_acts = true /\
+  stopcall ul_w = 2 /\ stopped ul_w = false /\ pc_of ul_w = RSave /\ all_dead (w_thr ul_w) /\
+  (forall a, a <> AApiTx -> step 100 false true false true ul_w a = None) /\
+  (* the code on the same schedule: stopped *)
+  stopped (run 100 false true true true (ul_acts ++ [ARun true; ARun true; ARun true])) = true.
+Proof.
+  split; [vm_compute; reflexivity|]. split; [vm_compute; reflexivity|]. split; [vm_compute; reflexivity|].
+  split; [vm_compute; reflexivity|]. split; [vm_compute; repeat split; reflexivity|]. split; [|vm_compute; reflexivity].
   intros a Ha. destruct a.
   - destruct ok; vm_compute; reflexivity.
   - vm_compute; reflexivity.
@@ -458,12 +581,12 @@ Definition sol_acts : list act :=
    AStopFlag; AStopReq; ARun true; ARun true; AStep MI KEnd 0; AStep CD KEnd 0; ARun true; ARun true; ARun true].
 
 Theorem send_outside_lock_refuted :
-  send_on_closed (run_sol 1 false true true sol_acts) = true /\
+  send_on_closed (run_sol 1 false true true true sol_acts) = true /\
   (* the code: same schedule, the sender holds the mutex, Close waits *)
-  send_on_closed (run 1 false true true sol_acts) = false /\
-  pc_of (run 1 false true true sol_acts) = RCloseTx /\
-  step 1 false true true (run 1 false true true sol_acts) (ARun true) = None /\
-  thread (run 1 false true true sol_acts) AP = TLive (PSend CTx) 0.
+  send_on_closed (run 1 false true true true sol_acts) = false /\
+  pc_of (run 1 false true true true sol_acts) = RCloseTx /\
+  step 1 false true true true (run 1 false true true true sol_acts) (ARun true) = None /\
+  thread (run 1 false true true true sol_acts) AP = TLive (PSend CTx) 0.
 Proof. vm_compute. repeat split; reflexivity. Qed.
 
 (* ---------------------------------------------------------------------------------------------- *)
@@ -479,12 +602,12 @@ Definition d27_acts : list act :=
    AReg PU; AStep PU KEnd 0; AStep PU KEnd 0].
 
 Theorem d27_refuted :
-  exists acts, prompt 100 false true true acts = false /\
-    let w := run 100 false true true acts in
+  exists acts, prompt 100 false true true true acts = false /\
+    let w := run 100 false true true true acts in
     stopped w = true /\ d_late (w_dat w) = true /\ d_disk (w_dat w) <> d_mem (w_dat w) /\
     (* and the schedule is fine up to the moment the counter is read *)
-    exists pre post, acts = pre ++ ARun true :: post /\ prompt 100 false true true pre = true /\
-                     pc_of (run 100 false true true pre) = RWaitProc /\ thread (run 100 false true true pre) PU = TSpawned.
+    exists pre post, acts = pre ++ ARun true :: post /\ prompt 100 false true true true pre = true /\
+                     pc_of (run 100 false true true true pre) = RWaitProc /\ thread (run 100 false true true true pre) PU = TSpawned.
 Proof.
   exists d27_acts. split; [vm_compute; reflexivity|]. cbv zeta.
   split; [vm_compute; reflexivity|]. split; [vm_compute; reflexivity|]. split; [vm_compute; discriminate|].
@@ -497,10 +620,10 @@ Qed.
 (* a restart (lost connection, time-out) goes through the same phases: when the run loop is back at
    its head, every goroutine of the old round has ended, everything was saved, the stop flags are reset *)
 Theorem restart_resumes : forall cap ucfg daf acts,
-  prompt cap ucfg daf true acts = true ->
-  let w := run cap ucfg daf true acts in
+  prompt cap ucfg daf true true acts = true ->
+  let w := run cap ucfg daf true true acts in
   pc_of w = RDecide -> needs w = true -> hard w = false ->
-  let w' := apply cap ucfg daf true w (ARun true) in
+  let w' := apply cap ucfg daf true true w (ARun true) in
   pc_of w' = RLoop /\ stopping w' = false /\ needs w' = false /\ stopped w' = false /\
   all_dead (w_thr w') /\ d_disk (w_dat w') = d_mem (w_dat w') /\ d_mem (w_dat w') = d_mem (w_dat w).
 Proof.
@@ -532,7 +655,7 @@ Theorem reconnect_resumes_sync :
 Proof. intros. eapply Sync_Proofs.c02_monitor_passes; eassumption. Qed.
 
 (* the scenario runner used by the correspondence check only takes steps of the transition system *)
-Lemma settle_reach : forall fuel listen a b c d w, exists acts, settle fuel listen a b c d w = run_from scap false true true w acts.
+Lemma settle_reach : forall fuel listen a b c d w, exists acts, settle fuel listen a b c d w = run_from scap false true true true w acts.
 Proof.
   induction fuel as [|f IH]; intros listen a b c d w; [exists []; reflexivity|].
   cbn [settle]. destruct (pick listen a b c d w) as [x|]; [|exists []; reflexivity].
